@@ -5,6 +5,7 @@ package ratelimiter
 
 import (
 	"encoding/json"
+	"sync/atomic"
 	"testing"
 	"time"
 
@@ -17,6 +18,12 @@ type c09Input struct {
 	T        int64   `json:"T"`        // TimeoutDuration (ns)
 	Arrivals []int64 `json:"arrivals"` // ns since limiter creation, non-decreasing
 	Counts   []int   `json:"counts"`   // permits requested per arrival (1 = AcquirePermission)
+	// Race (0 = none): call Race-1 (A) is issued by a goroutine whose clock read is a schedule point: the
+	// stub blocks it there (it has read arrivals[Race-1]) while call Race (B, clock arrivals[Race]) runs in a
+	// second goroutine; after B returned, or after 20 ms (B is blocked behind A's lock), A is released.
+	// The clock is read inside the critical section, so B can only run after A and the results are those of
+	// the sequential history in input order — that is what is judged (no verdict depends on the 20 ms).
+	Race int `json:"race,omitempty"`
 }
 
 type c09Obs struct {
@@ -67,6 +74,23 @@ func c09Gen(r *verifh.Rand, i int) interface{} {
 		}
 		in.Counts = append(in.Counts, c)
 	}
+	// schedule-point share: A reads the clock late in a period, B arrives many periods later
+	if r.Bool(1, 70) {
+		in.T = int64(r.PickInt(0, 0, int(in.P), int(2*in.P)))
+		in.Arrivals, in.Counts = nil, nil
+		k := r.Range(0, in.L)
+		for j := 0; j < k; j++ {
+			in.Arrivals = append(in.Arrivals, 0)
+		}
+		in.Arrivals = append(in.Arrivals, in.P-1, in.P*int64(r.Range(1, 60))+int64(r.Range(0, int(p)-1))*unit)
+		in.Race = len(in.Arrivals) - 1
+		for j := r.Range(0, 3); j > 0; j-- {
+			in.Arrivals = append(in.Arrivals, in.Arrivals[len(in.Arrivals)-1]+int64(r.Range(0, int(p)))*unit)
+		}
+		for range in.Arrivals {
+			in.Counts = append(in.Counts, 1)
+		}
+	}
 	return in
 }
 
@@ -76,14 +100,22 @@ func c09Exec(raw json.RawMessage) interface{} {
 		return map[string]string{"error": "bad-input"}
 	}
 	base := time.Unix(1700000000, 0)
-	cur := int64(0)
+	var cur int64
+	var armed int32
+	entered, release := make(chan struct{}), make(chan struct{})
 	old := nowFunc
 	defer func() { nowFunc = old }()
-	nowFunc = func() time.Time { return base.Add(time.Duration(cur)) }
+	nowFunc = func() time.Time {
+		t := base.Add(time.Duration(atomic.LoadInt64(&cur)))
+		if atomic.CompareAndSwapInt32(&armed, 1, 0) { // A's clock read: the schedule point
+			close(entered)
+			<-release
+		}
+		return t
+	}
 	rl := New(NewPolicy(time.Duration(in.T), time.Duration(in.P), in.L))
 	obs := c09Obs{Res: make([][2]int64, 0, len(in.Arrivals))}
-	for k, a := range in.Arrivals {
-		cur = a
+	call := func(k int) [2]int64 {
 		c := 1
 		if k < len(in.Counts) {
 			c = in.Counts[k]
@@ -99,7 +131,54 @@ func c09Exec(raw json.RawMessage) interface{} {
 		if ok {
 			b = 1
 		}
-		obs.Res = append(obs.Res, [2]int64{b, int64(d)})
+		return [2]int64{b, int64(d)}
+	}
+	raced := false
+	for k := 0; k < len(in.Arrivals); k++ {
+		atomic.StoreInt64(&cur, in.Arrivals[k])
+		if in.Race >= 1 && k == in.Race-1 && k+1 < len(in.Arrivals) && !raced {
+			raced = true
+			ra, rb := make(chan [2]int64, 1), make(chan [2]int64, 1)
+			atomic.StoreInt32(&armed, 1)
+			go func() { ra <- call(k) }()
+			var resA, resB [2]int64
+			gotA := false
+			select {
+			case <-entered:
+			case resA = <-ra: // A returned without reading the clock
+				gotA = true
+				atomic.StoreInt32(&armed, 0)
+			case <-time.After(20 * time.Second):
+				return map[string]string{"error": "race: A never reached the clock"}
+			}
+			atomic.StoreInt64(&cur, in.Arrivals[k+1])
+			go func() { rb <- call(k + 1) }()
+			gotB := false
+			select {
+			case resB = <-rb:
+				gotB = true
+			case <-time.After(20 * time.Millisecond): // B is blocked behind A's lock (the correct outcome)
+			}
+			if !gotA {
+				close(release)
+				select {
+				case resA = <-ra:
+				case <-time.After(20 * time.Second):
+					return map[string]string{"error": "race: A did not return"}
+				}
+			}
+			if !gotB {
+				select {
+				case resB = <-rb:
+				case <-time.After(20 * time.Second):
+					return map[string]string{"error": "race: B did not return"}
+				}
+			}
+			obs.Res = append(obs.Res, resA, resB)
+			k++
+			continue
+		}
+		obs.Res = append(obs.Res, call(k))
 	}
 	return obs
 }
